@@ -527,3 +527,21 @@ pub fn dot_cases(args: &[String]) -> Value {
     out.flush().ok();
     json!({"summary": {"bdd_exports": nb, "tree_exports": nt, "nv": nv}})
 }
+
+/// parse-ast <file>...: the real parser's tree for each file (generator outputs), names by id
+pub fn parse_ast(args: &[String]) -> Value {
+    let mut n = 0;
+    for f in args {
+        let text = std::fs::read_to_string(f).unwrap_or_default();
+        let rec = match parse(&text, None) {
+            Ok(Ok(pf)) => json!({"file": f, "ok": true, "tree": tree_json(&pf.bdd),
+                                  "names": pf.vars.iter().map(|v| v.name.as_ref().clone()).collect::<Vec<_>>(),
+                                  "free": pf.free_vars.iter().map(|v| v.name.as_ref().clone()).collect::<Vec<_>>()}),
+            Ok(Err(e)) => json!({"file": f, "ok": false, "error": e.to_string()}),
+            Err(m) => json!({"file": f, "ok": false, "panic": m}),
+        };
+        println!("{}", json!({"mismatch": rec}));
+        n += 1;
+    }
+    json!({"summary": {"files": n}})
+}
